@@ -472,7 +472,23 @@ func c08Aggregates(c *fw.Ctx) {
 			pw, _ := ref.SplitAggregate(pa)
 			want = append(want, pw...)
 		}
-		for _, ch := range w.Encode(agg, 0) {
+		// the aggregate itself may travel under any header format the chunk stream's history allows: in
+		// half of the runs an ordinary message a little earlier on the same chunk stream makes the delta
+		// formats legal (the sub-messages' timestamps are relative to the aggregate's ABSOLUTE timestamp)
+		if rep%2 == 1 && baseTs >= 1000 {
+			m0 := ref.RtmpMsg{Csid: 4, TypeID: 9, StreamID: 1, Ts: baseTs - uint32(rng.Intn(900)), Payload: c09Fill(1+rng.Intn(100), uint32(rep*7))}
+			l0 := w.LegalFormats(m0)
+			for _, ch := range w.Encode(m0, l0[rng.Intn(len(l0))]) {
+				data = append(data, ch...)
+			}
+			want = append(want, m0)
+		}
+		al := w.LegalFormats(agg)
+		af := al[rng.Intn(len(al))]
+		if af != 0 {
+			c.Count("aggregates_under_delta_headers", 1)
+		}
+		for _, ch := range w.Encode(agg, af) {
 			data = append(data, ch...)
 		}
 		aw, _ := ref.SplitAggregate(agg)
